@@ -482,14 +482,19 @@ impl<K: El, V: El> Mon<K, V> {
         if let Some(o) = &st1.old {
             self.stats.max_old_buckets = self.stats.max_old_buckets.max(o.table.buckets);
             if o.cursor_remaining > o.table.len {
-                // the cursor would walk past the elements that exist: going on is not safe
-                viol!(
-                    "C05",
-                    "cached iterator believes {} elements remain but the old table holds {} after {}",
-                    o.cursor_remaining,
-                    o.table.len,
-                    enc()
-                );
+                // the cursor would walk past the elements that exist: going on is not safe.
+                // Iteration clones this cursor, so the call also left the observable contents
+                // wrong: the op's own property is violated as well.
+                return Err(Viol {
+                    prop: "C05",
+                    more: cursor_more(op.code),
+                    msg: format!(
+                        "cached iterator believes {} elements remain but the old table holds {} after {} (iteration would yield elements that are gone)",
+                        o.cursor_remaining,
+                        o.table.len,
+                        enc()
+                    ),
+                });
             }
             if o.cursor_remaining < o.table.len {
                 // elements will be stranded, but continuing the history is memory-safe
@@ -506,13 +511,11 @@ impl<K: El, V: El> Mon<K, V> {
                     cur.sort_unstable();
                     full.sort_unstable();
                     if cur != full {
-                        viol!(
-                            "C05",
-                            "cached iterator would visit buckets {:?} but the old table's full buckets are {:?} after {}",
-                            cur,
-                            full,
-                            enc()
-                        );
+                        return Err(Viol {
+                            prop: "C05",
+                            more: cursor_more(op.code),
+                            msg: format!("cached iterator would visit buckets {:?} but the old table's full buckets are {:?} after {}", cur, full, enc()),
+                        });
                     }
                     self.stats.cursor_checks += 1;
                     if o.table.buckets > group_width() {
@@ -896,6 +899,22 @@ pub fn op_has_key(c: Code) -> bool {
 }
 
 /// Property a plain observation mismatch / undocumented panic of this op is attributed to.
+/// Properties (besides C05) violated when a call leaves the cached iterator pointing at elements
+/// that are gone: iteration clones that iterator, so the contents the call's own property talks
+/// about are observably wrong.
+pub fn cursor_more(c: Code) -> &'static [&'static str] {
+    match class_prop(c) {
+        "C01" => &["C01"],
+        "C12" => &["C12", "C01"],
+        "C08" => &["C08"],
+        "C09" => &["C09"],
+        "C10" => &["C10"],
+        "C11" => &["C11"],
+        "C13" => &["C13"],
+        _ => &[],
+    }
+}
+
 pub fn class_more(c: Code) -> &'static [&'static str] {
     use Code::*;
     match c {
